@@ -223,6 +223,16 @@ CLAIMS['C12'] = dict(
     design='3/C12 and 8.2', note='Which configurations Preprocessor::getConfigs enumerates for a given conditional structure, the configuration strings, and simplecpp\'s evaluation of '
                                  'conditions are value dependent and not decided.')
 
+CLAIMS['C31'] = dict(
+    technique='static analysis: guard-dominance (must-analysis with branch facts) of every append of the directory lister, call-graph agreement of the pattern-matcher users, '
+              'branch census of the --file-filter application',
+    text='Decides the gating clause and the one-matcher clause (necessary conditions): every path the directory lister (POSIX variant, the one compiled here) appends has been rejected by the '
+         '-i matcher and, when found by traversal, accepted by Path::acceptFile; the -i filter, --file-filter, project exclusion and the file test of suppressions all end in the static '
+         'PathMatch::match, and the file comparison in Suppression::isSuppressed is that call; with --file-filter the list copied into CmdLineParser::mFiles is the filter result. '
+         'The sorted-order clause is decided by C29 R29.2.',
+    design='3/C31', note='Glob and canonicalisation semantics of PathMatch::match / Path::simplifyPath on arbitrary strings (\'*\', \'**\', \'?\', relative/absolute patterns, trailing separators), '
+                         'de-duplication, and the Windows variant of the lister (not compiled on this platform) are not decided.')
+
 # rules added while triaging seeded changes and replayed defects (see DESIGN.md 8.4/8.5); appended to the decided text of each claim
 EXTRA = {
     'C05': 'R05.2: token lists are rendered with line breaks / line numbers / file names only by the printers of the Token class. R05.3: a token line is compared with a '
@@ -281,7 +291,6 @@ NOT_APPLICABLE = {
     'C08': 'agreement with a reference compiler\'s name lookup over all programs (differential, not source analysis)',
     'C09': 'correctness of the conversion-rule computation over all operand type combinations is a function-correctness proof; the platform table it reads is decided under C10',
     'C11': 'output equivalence with a reference preprocessor over all sources',
-    'C31': 'path/glob matching is string-value computation; the sortedness clause is decided under C29',
     'C32': 'input/output behaviour of a hand-written option parser on arbitrary command strings',
     'C33': 'equivalence of two matchers over all token sequences (program equivalence)',
     'C35': 'consistency with clang\'s resolution and crash-freedom on arbitrary AST dumps are value-dependent',
